@@ -10,7 +10,7 @@ from ..core import Failure
 from ..model import MP, first_diff
 
 ID = "C20"
-BUDGET = {"quick": 500, "thorough": 2500}
+BUDGET = {"quick": 500, "thorough": 8000}
 TECHNIQUE = ("exhaustive enumeration of single exponents (key encode/decode/raw view/pickle) and of exponent pairs for "
              "products, plus Hypothesis-generated large exponent tuples through alignment, multiplication, powers, "
              "differentiation, evaluation, pickling and text files, vs the exact model / 'round-trips exactly or raises'")
